@@ -38,6 +38,10 @@ def configs(tier):
         for sw in ([3], [4], [1, 2], [2, 2]) + (() if tier == "quick" else ([6], [2, 3])):
             out.append(dict(kind="recover", cls=cls, swatches=list(sw)))
     out.append(dict(kind="shortcuts"))
+    # fitting never increases the swatch residual relative to the balance it started from (any destinations)
+    for cls in ("WhiteBalance", "ColorBalance", "AffineBalance"):
+        for start in ("identity", "previous_fit"):
+            out.append(dict(kind="residual", cls=cls, start=start))
     return out
 
 
@@ -71,6 +75,15 @@ def install_stubs():
             n = len(x0)
             if CTX["mode"] == "any":
                 r.x = S.array(f"fit{len(CTX['calls'])}", n, lo=-3, hi=3)
+            elif CTX["mode"] == "descent":
+                # any answer that is no worse than the starting point DarSIA handed over (what every descent method returns)
+                if S.symbolic():
+                    r.x = S.fresh("xdesc", n)
+                    S.add_constraint(S.le(fun(r.x), fun(np.asarray(x0, dtype=object))))
+                    for v in r.x:
+                        S.add_constraint(S.and_(S.le(-5, v), S.le(v, 5)))
+                else:
+                    r.x = np.array(list(x0), dtype=object if S.instrumented() else float)
             else:
                 truth = CTX["truth"]
                 if S.symbolic():
@@ -100,7 +113,7 @@ def body(cfg):
     import darsia.corrections.color.colorbalance as cb
 
     CTX["calls"] = []
-    if cfg["kind"] in ("stages", "shortcuts") or S.instrumented():
+    if cfg["kind"] in ("stages", "shortcuts", "residual") or S.instrumented():
         # the optimiser is a contract stub in every mode for the composition claims (the replay of a
         # counterexample needs the solver's fitted values); recovery claims run real Powell when plain
         install_stubs()
@@ -147,6 +160,29 @@ def body(cfg):
         S.claim("stage_classes_match_modes", [type(c).__bases__[0].__name__ for c in created] == [{"diagonal": "WhiteBalance", "linear": "ColorBalance", "affine": "AffineBalance"}[m] for m in cfg["seq"]])
         ab.reset()
         S.claim("reset_restores_identity", S.eq(ab.apply_balance(x), x))
+        return
+    if cfg["kind"] == "residual":
+        CTX["mode"] = "any" if cfg["start"] == "previous_fit" else "descent"
+        src = S.array("s", (2, 3), lo=0, hi=1)
+        dst = S.array("t", (2, 3), lo=0, hi=1)
+        bal = getattr(darsia, cfg["cls"])()
+        if cfg["start"] == "previous_fit":
+            other = S.array("u", (2, 3), lo=0, hi=1)
+            bal.find_balance(src, other)  # leaves an arbitrary balance behind (stub: any vector)
+            CTX["mode"] = "descent"
+
+        def res():
+            d = bal.apply_balance(src) - dst
+            tot = 0
+            for x in np.asarray(d).ravel():
+                tot = tot + x * x
+            return tot
+
+        before = res()
+        bal.find_balance(src, dst)
+        after = res()
+        S.claim("fitting_does_not_increase_the_swatch_residual", S.le(after, before))
+        S.claim("the_fit_consults_the_optimiser_once", len(CTX["calls"]) == (2 if cfg["start"] == "previous_fit" else 1))
         return
     if cfg["kind"] == "shortcuts":
         # a single stage of the adaptive balance equals the plain class; shortcut functions apply what they fit
